@@ -959,6 +959,20 @@ func c09Outcomes(p *Prog, l *Ledger, r *c09Roles, wptr types.Type) {
 			l.Check(len(bad) == 0, "O5", key, p.FuncPos(m), fmt.Sprintf("%d functions reachable; none writes a window or calls Limit.OnSample", len(reach)), "an ignored completion leaves a trace in a sampling window", bad...)
 		}
 	}
+	thresholds := map[string]FieldRef{}
+	defer func() {
+		// the threshold that filters is the threshold that was configured: constructors store their parameter as given
+		// (0 is a meaningful value: no filtering); only a negative one may be replaced
+		var ks []string
+		for k := range thresholds {
+			ks = append(ks, k)
+		}
+		sort.Strings(ks)
+		for _, k := range ks {
+			bad := storedAsGiven(p, thresholds[k])
+			l.Check(len(bad) == 0, "O5", k+"/configured", "", "every constructor stores the threshold it was given (only a negative one is replaced)", "completions slower than the configured threshold can be discarded (or faster ones recorded)", bad...)
+		}
+	}()
 	// threshold filter and outcome->fold mapping in components that own a window (or reach one through a helper)
 	for _, f := range p.Funcs {
 		if f.Signature.Recv() == nil || !(p.InPkg(f, "limiter") || p.InPkg(f, "limit")) {
@@ -1034,7 +1048,11 @@ func c09Outcomes(p *Prog, l *Ledger, r *c09Roles, wptr types.Type) {
 						// the threshold: a configuration field (never written after construction), whatever it is called
 						fr, _, isF := loadedField(strip(rr.Y, false))
 						_ = recvT
-						return isF && p.FieldImmutable(fr) && isIntegral(rr.Y.Type())
+						if isF && p.FieldImmutable(fr) && isIntegral(rr.Y.Type()) {
+							thresholds[p.FieldKey(fr)] = fr
+							return true
+						}
+						return false
 					})
 					if !ok {
 						bad = append(bad, fmt.Sprintf("%s: a sample is recorded on a path that has not established rtt >= minRTTThreshold", p.At(rc.ins)))
